@@ -8,7 +8,7 @@ from vlib.core import exc_site, fmt_exc
 PROPERTY = "C12"
 LEVEL = "exploration"
 CLAIM = {
-    "text": "Exploration by runtime monitoring over a complete length sweep: for every length 1..300 (quick) / 1..2100 plus random lengths up to 70000 (thorough) and four data classes, TimeSeries.rfft, FourierSeries.ifft, kernels.fftconvolve, TimeSeries.correlate and form_spec are compared with float64 direct evaluation (O(n^2) DFT sums for n <= 512, numpy float64 FFT above): spectrum vs the DFT of the zero-padded series, Parseval, ifft(rfft(x)) == x zero-padded to the transform length, convolution length n+m-1 and values, correlation lags -(m-1)..n-1 located with an impulse, amplitude spectrum == |bin|. Error gate 1e-5*||x|| (float32 FFT noise ~1e-7). Data classes include series whose maximum is exactly 0 with negative samples; every array handed to the library is compared with a private copy afterwards. Rounds 7-8 added: templates with exact zeros at both ends, templates given as a reused series object, and boxcar kernels on 2^21+ samples with mean >> rms (gate 2e-6*|x|*|k|, observed error 1000 times smaller). Round 9 added: series on a baseline 2x10^4 times their scatter, and the spectrum returned by rfft() re-read after its deredden().",
+    "text": "Exploration by runtime monitoring over a complete length sweep: for every length 1..300 (quick) / 1..2100 plus random lengths up to 70000 (thorough) and four data classes, TimeSeries.rfft, FourierSeries.ifft, kernels.fftconvolve, TimeSeries.correlate and form_spec are compared with float64 direct evaluation (O(n^2) DFT sums for n <= 512, numpy float64 FFT above): spectrum vs the DFT of the zero-padded series, Parseval, ifft(rfft(x)) == x zero-padded to the transform length, convolution length n+m-1 and values, correlation lags -(m-1)..n-1 located with an impulse, amplitude spectrum == |bin|. Error gate 1e-5*||x|| (float32 FFT noise ~1e-7). Data classes include series whose maximum is exactly 0 with negative samples; every array handed to the library is compared with a private copy afterwards. Rounds 7-8 added: templates with exact zeros at both ends, templates given as a reused series object, and boxcar kernels on 2^21+ samples with mean >> rms (gate 2e-6*|x|*|k|, observed error 1000 times smaller). Round 9 added: series on a baseline 2x10^4 times their scatter, and the spectrum returned by rfft() re-read after its deredden(). Round 10 added: spectra of 2^16 bins and more judged bin by bin (rfft, amplitude spectrum, inverse).",
     "design_ref": "DESIGN.md section 3 (C12)",
     "note": "Trusted: numpy float64 FFT (cross-checked against explicit DFT sums for n <= 512), numpy.convolve/correlate in float64.",
     "technique": "runtime monitoring: exhaustive length sweep against float64 direct-definition oracles",
